@@ -7,6 +7,7 @@ import (
 	"strings"
 
 	"github.com/tinode/chat/server/store/types"
+	mem "github.com/tinode/chat/server/zzverifmem"
 )
 
 type wAtt struct {
@@ -120,6 +121,17 @@ func (a *wAttach) update(w *wWorld, st *wStep) {
 			if mode, has := wAcsMode(c); has && !strings.ContainsAny(mode, "Jj") {
 				// Subscribed without the J permission: not attached.
 				continue
+			}
+			if s.User >= 0 && s.Route != "sys" {
+				// A 2xx reply that reports no mode change: the session is attached iff the user's stored
+				// effective mode includes J (a self-banned user repeating {sub} is acknowledged, not attached).
+				row := route
+				if strings.HasPrefix(name, "chn") {
+					row = name
+				}
+				if m, ok := effective(mem.A.Snapshot(), row, w.users[s.User].uid); ok && !m.IsJoiner() {
+					continue
+				}
 			}
 			if a.att[s.Sess] == nil {
 				a.att[s.Sess] = map[string]wAtt{}
